@@ -205,3 +205,25 @@ Proof.
     exists parent, dec. repeat split; auto.
 Qed.
 Print Assumptions C09_block_range_depth.
+
+(* the walk, exactly: [all_visits s doc 0] lists every descendant of the document in document order (a node before its
+   children, children left to right) with its parent, index and absolute position; with a callback that never prunes,
+   Node.nodes_between(from, to) reports EXACTLY the members of that list that overlap the range (pos < to and
+   from < pos + size), in that order - for documents whose leaf-typed nodes have no children and that hold no empty text node *)
+Theorem C09_nodes_between_exact : forall s doc from to,
+  wfw s doc -> to <= frag_size s (node_content doc) ->
+  nodes_between_node s (fun _ => true) doc from to 0 = Ok (filter (overlap s from to) (all_visits s doc 0)).
+Proof. exact nodes_between_exact. Qed.
+Print Assumptions C09_nodes_between_exact.
+
+(* Node.text_between(from, to, block_separator, leaf_text), for a non-empty range: the text is what one reads off the tokens of
+   the range, left to right ([tbt]): the unit of every character token (one per UTF-16 code unit), the leaf text for every
+   leaf token, and the block separator in front of every block node that OPENS inside the range - unless a separator was
+   just written or nothing has been written yet; close tokens and inline containers write nothing.  (Blocks that were
+   opened before the range write no separator: they are visited first, while nothing has been written.) *)
+From PM Require Import Proofs.TextBetween.
+Theorem C09_text_between_reads_the_tokens : forall s from to sep leaf doc,
+  from < to -> wfw s doc -> to <= frag_size s (node_content doc) ->
+  text_between s doc from to sep leaf = Ok (tbt s sep leaf (seg (ftoks s (node_content doc)) from to) true).
+Proof. intros s from to sep leaf doc H. exact (text_between_tokens s from to sep leaf H doc). Qed.
+Print Assumptions C09_text_between_reads_the_tokens.
